@@ -151,6 +151,24 @@ func (g *c09Gen) section() verifh.Section {
 					toks[last] = ":" + n
 				}
 			}
+		case x < 50 && mode == 1 && len(regs) > 0:
+			// excluded region: an existing route with one variable renamed, and possibly a different tail
+			base := regs[r.Intn(len(regs))].toks
+			toks = append([]string{}, base...)
+			for j, t := range toks {
+				if strings.HasPrefix(t, ":") {
+					if t == ":x" {
+						toks[j] = ":y"
+					} else {
+						toks[j] = ":x"
+					}
+					if r.Bool() && j+1 < len(toks) {
+						toks[len(toks)-1] = g.pattern(1, names)[0]
+					}
+					break
+				}
+			}
+			m = regs[r.Intn(len(regs))].m
 		case x < 32 && len(regs) > 0:
 			// extension of an existing route
 			base := regs[r.Intn(len(regs))].toks
